@@ -25,7 +25,7 @@ STEPS = ('open-polling', 'open-websocket', 'poll', 'post-message', 'post-close',
          'advance-interval', 'advance-past-bound', 'bad-method', 'bad-transport', 'unknown-sid', 'bad-version', 'poll-second-session',
          'post-binary', 'post-two-then-close', 'jsonp-poll', 'ws-pong', 'post-nonascii-over-bytes', 'post-ascii-at-limit',
          'post-ascii-over-limit', 'ws-frame-over-limit', 'ws-nonascii-frame', 'post-close-then-message', 'post-form-encoded',
-         'send-burst-over-limit', 'upgrade-slow-probe-send', 'post-no-content-length', 'post-close-no-content-length')
+         'send-burst-over-limit', 'upgrade-slow-probe-send', 'post-no-content-length', 'post-close-no-content-length', 'ws-empty-binary', 'post-empty-binary')
 
 
 class _Side:
@@ -114,7 +114,7 @@ def _apply(side, step, n):
     elif step == 'poll-second-session':
         if 1 not in side.polls:
             side.polls[1] = req(step, sut.get(side.sid(1)))
-    elif step in ('post-no-content-length', 'post-close-no-content-length'):
+    elif step in ('post-no-content-length', 'post-close-no-content-length', 'ws-empty-binary', 'post-empty-binary'):
         # a POST sent with chunked transfer encoding: a body, but no Content-Length header
         req(step, sut.post(s0, '4chunked%d' % n if step == 'post-no-content-length' else '1', declared_len='absent'))
     elif step.startswith('post-'):
@@ -122,7 +122,7 @@ def _apply(side, step, n):
                 'post-garbage': 'zz', 'post-17-packets': '\x1e'.join(['4x'] * 17), 'post-binary': 'bAAEC',
                 'post-two-then-close': '4a\x1e4b\x1e1', 'post-close-then-message': '4a\x1e1\x1e4late',
                 'post-form-encoded': 'd=4hello+world%1E4%7B%22a%22%3A+%22b+c%22%7D%1E4x%2By', 'post-nonascii-over-bytes': '4' + '\u0436' * 35,
-                'post-ascii-at-limit': '4' + 'x' * (LIMIT - 1), 'post-ascii-over-limit': '4' + 'x' * LIMIT}[step]
+                'post-ascii-at-limit': '4' + 'x' * (LIMIT - 1), 'post-ascii-over-limit': '4' + 'x' * LIMIT, 'post-empty-binary': 'b'}[step]
         req(step, sut.post(s0, body))
     elif step.startswith('send-'):
         if step == 'send-burst-over-limit':
@@ -181,7 +181,7 @@ def _apply(side, step, n):
             p.close()
         else:
             p.send({'ws-message': '4w%d' % n, 'ws-binary': b'\x01\x02', 'ws-close-packet': '1', 'ws-type8': '8', 'ws-pong': '3',
-                    'ws-frame-over-limit': '4' + 'y' * LIMIT, 'ws-nonascii-frame': '4' + '\u0436' * 35}[step])
+                    'ws-frame-over-limit': '4' + 'y' * LIMIT, 'ws-nonascii-frame': '4' + '\u0436' * 35, 'ws-empty-binary': b''}[step])
     elif step == 'advance-interval':
         sut.run(until=sut.k.now + PI)
     elif step == 'advance-past-bound':
